@@ -22,19 +22,20 @@ LEAN_MODULES = ["DaskModel.Props.C34"]
 CASE_TIMEOUT_S = 20
 LEVEL_TEXT = ("Lean 4 theorems over exact integer (= rational, after scaling) arithmetic of the per-block plans: "
               "arange_num_spec_pos/neg (num counts exactly the indices before stop), arange_den (for every chunking and "
-              "sign of step the blocks have the declared lengths and concatenate to start+i*step), linspace_den, "
+              "sign of step the blocks have the declared lengths and concatenate to start+i*step), linspace_den (every "
+              "element is a function of its global index only; the repaired da.linspace is compared with NumPy bit for bit), "
               "eye_den (element (r,c) is 1 iff c-r=k for every row/column chunking, incl. the np.zeros blocks), "
               "diag_den (1-d, k=0), diagonal_den (2-d: the while loop that follows the k-diagonal through the blocks "
               "terminates, declares np.diagonal's lengths and reads exactly the diagonal positions in order - loop "
               "invariant, any chunking, any k), tri_den, chunks_sum_shape (via C23). Float behaviour (fractional steps, length "
               "rounding, float linspace) is validated against NumPy, not proved; n-d diagonal (free axes)/indices/meshgrid/fromfunction/"
               "full/ones/zeros(_like) are validated at API level only.")
-LEVEL_NOTE = ("Trusted: Lean kernel + standard axioms; the harness; NumPy kernels on one block (np.arange/linspace/eye/diag) as "
-              "specified in ASSUMPTIONS. Known finding: linspace with an integer dtype can differ from NumPy by one where "
-              "the exact value is an integer (float round-off then floor).")
+LEVEL_NOTE = ("Trusted: Lean kernel + standard axioms; the harness; NumPy kernels on one block (np.arange/eye/diag/diagonal) as "
+              "specified in ASSUMPTIONS. linspace is compared with NumPy bit for bit (every element is a function of its "
+              "global index since the repair).")
 TECHNIQUE = "Lean 4 proof (induction over the chunk list, exact integer/rational arithmetic) + differential correspondence"
 ASSUMPTIONS = [
-    "np.arange(a, b, s) = [a + j*s | j < ceil((b-a)/s)], np.linspace(a, b, n)[j] = a + j*(b-a)/div, np.eye(n, m, k)[r, c] = (c - r == k), np.diag of one block: NumPy's (validated by the API-level comparison)",
+    "np.arange(a, b, s) = [a + j*s | j < ceil((b-a)/s)], np.eye(n, m, k)[r, c] = (c - r == k), np.diag of one block: NumPy's (validated by the API-level comparison)",
     "float rounding of fractional start/stop/step is outside the theorems (exact arithmetic); validated against NumPy with generators aimed at length-rounding edges",
 ]
 TRUSTED = []
@@ -166,47 +167,33 @@ def case_linspace(ctx, inp):
         if not np.isclose(rstep, estep, rtol=1e-15, atol=0):
             ctx.fail("linspace: retstep differs from NumPy", observed=float(rstep), expected=float(estep))
     cs = list(r.chunks[0])
-    if isinstance(a, int) and isinstance(b, int) and num > 0:
-        div = (num - 1) if ep else num
-        div = div or 1
-        m = ctx.lean(Sym("linspace"), a * div, b - a, ep, cs)
-        tasks = _tasks(r)
-        for i, (blk, ldiv, vals) in enumerate(m):
-            t = tasks[(r.name, i)]
-            want = [Fraction(blk[0], div), Fraction(blk[1], div), blk[2]]
-            got = [float(t.args[0]), float(t.args[1]), int(t.args[2])]
-            if got[2] != want[2] or any(abs(g - float(w)) > 1e-9 * max(1.0, abs(float(w))) for g, w in zip(got[:2], want[:2])):
-                ctx.disagree("linspace: task arguments (blockstart, blockstop, bs)", [float(w) for w in want], got)
-            # exact values of the block (numerators over div*ldiv) are the global linspace values
-            off = sum(cs[:i])
-            for j, v in enumerate(vals):
-                if Fraction(v, div * ldiv) != Fraction(a * div + (off + j) * (b - a), div):
-                    ctx.disagree("linspace: model block value != global value", [i, j, v], None)
+    tasks = _tasks(r)
+    offs = []
+    for i in range(len(cs)):
+        t = tasks[(r.name, i)]
+        offs.append([int(t.args[3]), int(t.args[4])])   # (offset, size) of chunk.linspace_block
+        if float(t.args[2]) != float(rstep) and num > 1:
+            ctx.disagree("linspace: task step differs from the returned step", float(rstep), float(t.args[2]))
+    if isinstance(a, int) and isinstance(b, int):
+        div = ((num - 1) if ep else num) or 1
+        m = ctx.lean(Sym("linspace"), a * div, b * div, b - a, num, ep, cs)
+        ctx.eq("linspace: task (offset, size) per chunk", m[0], offs)
+        ctx.eq("linspace: Lean blocks concatenate to the Lean spec", [v for blk in m[1] for v in blk], m[2])
+        # the exact values (numerators over div) against NumPy's floats
+        if e.dtype.kind == "f" and num:
+            exact = np.array([v / div for v in m[2]], dtype="f8")
+            tol = 16 * float(np.finfo(e.dtype).eps) * max(1.0, abs(a), abs(b))
+            if not np.allclose(exact, np.asarray(e, dtype="f8"), rtol=0, atol=tol):
+                ctx.disagree("linspace: Lean exact values vs NumPy", exact.tolist(), np.asarray(e).tolist())
         ctx.branch("linspace:int-endpoints")
     if len(cs) > 1:
         ctx.branch("linspace:multi-block")
     if not ep:
         ctx.branch("linspace:no-endpoint")
-    if np.dtype(e.dtype).kind in "iu" and num > 0:
-        # integer dtype: NumPy floors float values; dask's per-block float round-off may sit on the other side
-        # of an exact integer.  Classified precisely: only positions whose exact rational value is an integer,
-        # and only a difference of one.
-        g = np.asarray(r.compute(scheduler="sync"))
-        if g.shape == e.shape and g.dtype == e.dtype and not np.array_equal(g, e):
-            fa = Fraction(*a) if isinstance(a, list) else Fraction(a)
-            fb = Fraction(*b) if isinstance(b, list) else Fraction(b)
-            div = ((num - 1) if ep else num) or 1
-            bad = np.nonzero(g != e)[0]
-            only_edges = all(abs(int(g[i]) - int(e[i])) == 1 and (fa + i * (fb - fa) / div).denominator == 1 for i in bad)
-            ctx.fail("linspace with an integer dtype differs from NumPy by one where the exact value is an integer "
-                     "(float round-off of blockstart/blockstop, then floor)" if only_edges else
-                     "linspace (integer dtype): values differ from NumPy",
-                     sig="linspace:int-dtype:roundoff-at-exact-integer" if only_edges else None,
-                     observed=g.tolist(), expected=e.tolist())
-            ctx.branch("linspace:int-dtype")
-            return
+    if np.dtype(e.dtype).kind in "iu":
         ctx.branch("linspace:int-dtype")
-    _same(ctx, "linspace", r, e, exact=False)
+    # since `fix: da.linspace computes every element from its global index` the result is NumPy's bit for bit
+    _same(ctx, "linspace", r, e, exact=True)
 
 
 def case_eye(ctx, inp):
